@@ -18,8 +18,14 @@ Labels:
 `hist` (newest first) records task invocations, final invocations and callback
 calls; `consumed` counts the executed closures of the chain.
 
-Modelled, not verified: the chain assumes its posts succeed (running scheduler
-with room in the channel; a task that completes *synchronously* while the
+An entry of the task list that is nil (an unset step): `invokeTask` calls it,
+the call panics inside the posted closure and `doTask` recovers — in this model
+that is an invoked task (`.task i args` marks the call in `invokeTask`) that
+never completes; `Props.C15.uncompleted_task_stalls_chain` says what follows.
+
+Modelled, not verified: `Chain` assumes its posts succeed (`SChain` below adds
+`Stop`: callback calls on a stopped scheduler are dropped; room in the channel is
+still assumed; a task that completes *synchronously* while the
 channel is full blocks the consumer on its own queue — see
 `Props.C15.self_post_on_full_queue_deadlocks`); `args` are lists of naturals.
 -/
@@ -101,5 +107,40 @@ def taskIdxs (h : List Ev) : List Nat := h.filterMap fun | .task i _ => some i |
 def AtMostOnce (c : Chain) : Prop := ∀ i, c.calls i ≤ 1
 /-- "each invoked task completes exactly once" -/
 def ExactlyOnce (c : Chain) : Prop := ∀ i, i < c.invoked → c.calls i = 1
+
+/-! ### a chain on a scheduler that may be stopped (composition with `Sche.Post` on a closed channel)
+
+`callbackFunc` is `sche.Post(func(){ invokeCallback(err, args…) })`.  On a stopped
+scheduler `Post` recovers the send on the closed channel and returns nil
+(utils/sche/sche.go, `Post`): the callback call has no effect at all on the chain.
+Closures already queued may still be drained by the consumer after `Stop` (any
+prefix, `Handler`'s select between the closed task channel and `chanClose`).
+`refused` counts the dropped callback calls. -/
+
+structure SChain where
+  core : Chain
+  stopped : Bool := false
+  refused : Nat := 0
+
+inductive SLabel | inner (l : Label) | stop
+  deriving Repr
+
+def fireS (s : SChain) : SLabel → Option SChain
+  | .stop => some { s with stopped := true }
+  | .inner .run => (fire s.core .run).map fun c => { s with core := c }
+  | .inner (.complete i e r) =>
+    if s.stopped then
+      (if i < s.core.invoked then some { s with refused := s.refused + 1 } else none)
+    else (fire s.core (.complete i e r)).map fun c => { s with core := c }
+
+def runS : SChain → List SLabel → Option SChain
+  | s, [] => some s
+  | s, l :: ls => match fireS s l with
+    | none => none
+    | some s' => runS s' ls
+
+inductive ReachableS (n : Nat) : SChain → Prop
+  | init : ReachableS n { core := { n := n } }
+  | step {s s' : SChain} (l : SLabel) : ReachableS n s → fireS s l = some s' → ReachableS n s'
 
 end Cell2v.Waterfall
